@@ -58,4 +58,20 @@ theorem iEf_tie (efmin d : Rat) (hd : 0 < d) (j : Nat) : iEf efmin d (efmin + (j
     rw [add_sub_cancel_left, mul_div_assoc, div_self hd.ne', mul_one, Int.cast_natCast]
   rw [this, Rat.ceil_intCast]
 
+/-- `weight_select_bands` and the group filter depend on the selection only as a multiset: any reordering of
+    `select_bands` gives the same weight and the same kept groups -/
+theorem wsel_perm {l l' : List Nat} (h : l.Perm l') (ab : Nat × Nat) :
+    wsel (some l) ab = wsel (some l') ab ∧ selHits (some l) ab = selHits (some l') ab := by
+  constructor
+  · unfold wsel
+    simp only
+    rw [(h.filter _).length_eq]
+  · unfold selHits
+    simp only
+    rw [Bool.eq_iff_iff]
+    simp only [List.any_eq_true]
+    constructor
+    · rintro ⟨x, hx, hp⟩; exact ⟨x, h.mem_iff.mp hx, hp⟩
+    · rintro ⟨x, hx, hp⟩; exact ⟨x, h.mem_iff.mpr hx, hp⟩
+
 end WB.C13
